@@ -28,6 +28,13 @@ Theorem C11_uniq : forall c h, Uniq (tbl (fst (run c (init c) h))).
 Proof. exact uniq_all. Qed.
 Print Assumptions C11_uniq.
 
+(* The same with "still acknowledged" read from the clock (unexpired at any instant now): a
+   consequence — the server treats an expired lease as acknowledged until MinuteTicker frees it
+   (taken() and the session keep blocking the address), which only strengthens C11. *)
+Theorem C11_uniq_unexpired : forall c h now, Uniq_at now (tbl (fst (run c (init c) h))).
+Proof. exact uniq_at_all. Qed.
+Print Assumptions C11_uniq_unexpired.
+
 (* No OFFER (and no ACK) names an address that is, at that step, acknowledged to
    another client identifier. *)
 Theorem C11_no_offer_of_acked : forall c h t m r,
